@@ -123,8 +123,8 @@ def _plan_conversion(start: Unit, end: Unit) -> Plan:
     plan += _cancel_factors(end_factors)
     plan += _cancel_factors(start_factors, invert=True)
 
-    assert not start_factors
-    assert not end_factors
+    if start_factors or end_factors:
+        raise ConversionNotFound(f"No conversion from {start} to {end}")
 
     return _inline_paths(plan + prefix_step)
 
@@ -176,7 +176,10 @@ def _replace_factors(factors: Dict[Dimension, List[Unit]]) -> RoughPlan:
         for dimension, unit, alternative in replacements:
             overall_sign = 1
             if not unit.dimension.is_factor(dimension):
-                assert (unit**-1).dimension.is_factor(dimension)
+                if not (unit**-1).dimension.is_factor(dimension):
+                    raise ConversionNotFound(
+                        f"No conversion for {unit} within {dimension}"
+                    )
                 overall_sign = -1
 
             ratio = _ratios[unit][alternative]
@@ -352,10 +355,11 @@ def _find_path_recursive(
 
 def _reduce_dimension(start: Unit, end: Unit) -> Tuple[int, Unit, Unit]:
     """Reduce the dimension of the given units to their lowest common exponents"""
-    assert start.dimension is end.dimension, (
-        f"{start} ({start.dimension}) and {end} ({end.dimension}) measure "
-        "different dimensions"
-    )
+    if start.dimension is not end.dimension:
+        raise ConversionNotFound(
+            f"{start} ({start.dimension}) and {end} ({end.dimension}) measure "
+            "different dimensions"
+        )
 
     if start.dimension is Number:
         return 1, start, end
